@@ -387,9 +387,17 @@ def r12_3(ctx: Ctx):
         if not init_ok:
             ok = False
             why = why or "start offset is (re)assigned outside the per-residue loop: %s" % [norm(s) for s in outside]
-    ctx.ob("R12.3", gen, y, ok,
-           "the start offset is 0 initially and advances by the residue length exactly once per yielded "
-           "residue, after the yield" + ("" if ok else " -- " + why), node=y)
+    # the offsets produced by a stepped range (`for start in range(first, first + count * n, n)`): another, equally exact way
+    # to enumerate them, which this rule does not follow
+    stepped = inner is not None and isinstance(inner.iter, ast.Call) and call_name(inner.iter) == "range" and len(inner.iter.args) == 3 \
+        and norm(inner.target) == start
+    if stepped and not ok:
+        ctx.ob("R12.3", gen, y, True, "the start offsets are produced by a stepped range, not by a running offset advanced after each yield; "
+               "not decided on this tree", undecided=True, node=y)
+    else:
+        ctx.ob("R12.3", gen, y, ok,
+               "the start offset is 0 initially and advances by the residue length exactly once per yielded "
+               "residue, after the yield" + ("" if ok else " -- " + why), node=y)
     # the length is the length of the representative of that kind
     lens = [s for s in walk_no_nested(fn) if isinstance(s, ast.Assign) and norm(s.targets[0]) == length]
     okl = bool(lens) and norm(lens[0].value) == "len(self.different_molecules[%s])" % kind
@@ -591,6 +599,19 @@ def r12_4(ctx: Ctx):
     app_ = [b_ for x in body_same for _, b_ in pfind(x, "V_cur.append(V_atom)")]
     clo_ = [b_ for x in body_new for _, b_ in pfind(x, "self._add_residue_init(Residue(V_cur))")]
     pol_ok = (not neg) and bool(app_) and bool(clo_) and app_[0]["V_cur"] == clo_[0]["V_cur"]
+    if not pol_ok and (not neg) and clo_ and not app_:
+        # "flush on change, then append": the changed-key branch closes the residue and restarts it EMPTY, and the atom is
+        # appended after the test on both paths
+        pm124 = parents_map(f.node)
+        holder = pm124.get(id(t))
+        for fld_ in ("body", "orelse"):
+            blk_ = getattr(holder, fld_, None)
+            if isinstance(blk_, list) and any(x_ is t for x_ in blk_):
+                i_ = [j_ for j_, x_ in enumerate(blk_) if x_ is t][0]
+                after_ = [b_ for x_ in blk_[i_ + 1:i_ + 2] for _, b_ in pfind(x_, "V_cur.append(V_atom)")]
+                restart_empty = any(isinstance(x_, ast.Assign) and norm(x_.targets[0]) == clo_[0]["V_cur"] and norm(x_.value) == "[]" for x_ in body_new)
+                if after_ and after_[0]["V_cur"] == clo_[0]["V_cur"] and restart_empty and not body_same:
+                    pol_ok = True
     ctx.ob("R12.4", f, "branches of the boundary test", pol_ok,
            "an atom whose (number, name) equals the current residue's is appended to it; otherwise the current residue "
            "is closed and a new one starts with this atom", node=t)
